@@ -28,9 +28,11 @@
    n :: extra means the line has at least three fields, t the -standard flag, p the import
    path, n the package name.  gn_fold o [] lines is getPackages' loop over the lines
    (Ok table, or Panic when the Go code indexes past the end of a short line);
-   gn_lines out are the lines of what `go list` printed (TrimSpace, split at newlines). *)
+   gn_lines out are the lines of what `go list` printed (TrimSpace, split at newlines), and
+   gn_packages o out = gn_fold o [] (gn_lines out) by definition: every theorem below about
+   "lines" speaks about the text `go list` printed by taking lines := gn_lines out. *)
 From Jen Require Import Base.Bytes Base.Sort GoStd.Quote Model.Code Model.Render Model.FileRender Model.Gennames.
-From Jen Require Import Proofs.GennamesProofs.
+From Jen Require Import Proofs.DictProofs Proofs.GennamesProofs.
 From Coq Require Import Permutation Sorted.
 
 (* THE TABLE, EXACTLY.  If the loop survives, the table has one entry per path, and the name
@@ -117,7 +119,7 @@ Theorem C18_gennames_file_text : forall pkg name tbl,
 Proof. exact gn_file_raw. Qed.
 
 Theorem C18_gennames_body_entries : forall tbl,
-  gn_body tbl = dict_body_of (gn_quoted (gn_printed tbl)) /\
+  gn_body tbl = dict_body (gn_quoted (gn_printed tbl)) /\
   Permutation (gn_printed tbl) tbl /\
   StronglySorted (fun a b => str_leb (GoQuote (fst a)) (GoQuote (fst b)) = true) (gn_printed tbl).
 Proof. exact gn_body_entries. Qed.
@@ -159,11 +161,7 @@ Proof. exact gennames_lines_order. Qed.
    order in which `go list` prints vendor/... and cmd/vendor/... copies. *)
 Theorem C18_gennames_line_order_irrelevant_unrestricted_refuted :
   exists o l1 l2 t1 t2, Permutation l1 l2 /\ gn_fold o [] l1 = Ok t1 /\ gn_fold o [] l2 = Ok t2 /\ t1 <> t2.
-Proof.
-  exists gn_o_std, [gn_l_a; gn_l_b], [gn_l_b; gn_l_a], [(S "golang.org/x/net/idna", S "idna")], [(S "golang.org/x/net/idna", S "other")].
-  split; [exact (proj1 gennames_order_matters)|]. split; [exact (proj1 (proj2 gennames_order_matters))|].
-  split; [exact (proj2 (proj2 gennames_order_matters)) | discriminate].
-Qed.
+Proof. exact gennames_order_refuted. Qed.
 
 (* ---- Examples: the hypotheses are satisfiable, and what the rules mean on a listing ---- *)
 Definition ex_listing : str :=
